@@ -11,7 +11,7 @@ VERIF = os.path.dirname(HERE)
 BUILD = os.path.join(VERIF, "build")
 
 PROOF_FAILURE_PATTERNS = [
-    ("postcondition", re.compile(r"postcondition not satisfied")),
+    ("postcondition", re.compile(r"postcondition not satisfied|unable to prove post-condition of closure")),
     ("precondition", re.compile(r"precondition not satisfied|fails to satisfy `callee.requires")),
     ("assertion", re.compile(r"assertion failed|assert_by|assert_forall")),
     ("overflow", re.compile(r"possible arithmetic underflow/overflow|possible bit shift|possible division by zero")),
